@@ -272,6 +272,31 @@ theorem rstep_inv (hW : tok.tid = s.cfg.W) (hen : s.enabled tok = true)
 
 /-! ### all steps, all reachable states -/
 
+theorem wstep_cfg {s s' : St} {t : Nat} {ev : List String} (h : wstep s t = some (s', ev)) : s'.cfg = s.cfg := by
+  cases hpc : s.pc t <;> simp only [wstep, hpc] at h <;> (try (cases h; done)) <;> (repeat' split at h)
+  all_goals first
+    | (cases h; done)
+    | (simp only [Option.some.injEq, Prod.mk.injEq] at h; obtain ⟨rfl, -⟩ := h; simp [publish, acquired])
+
+theorem rstep_cfg {s s' : St} {t : Nat} {f : Flag} {ev : List String} (h : rstep s t f = some (s', ev)) :
+    s'.cfg = s.cfg := by
+  cases hpc : s.pc t <;> simp only [rstep, hpc] at h <;> (try (cases h; done)) <;> (repeat' split at h)
+  all_goals first
+    | (cases h; done)
+    | (simp only [Option.some.injEq, Prod.mk.injEq] at h; obtain ⟨rfl, -⟩ := h; simp)
+
+theorem step_cfg {s s' : St} {tok : Tok} {ev : List String} (h : step s tok = some (s', ev)) : s'.cfg = s.cfg := by
+  unfold step at h
+  split at h
+  · cases h
+  · split at h
+    · exact wstep_cfg h
+    · exact rstep_cfg h
+
+theorem reach_cfg (c : Cfg) (s : St) (hr : Reach step (mkInit c) s) : s.cfg = c :=
+  Reach.inv (fun s => s.cfg = c) rfl (fun _ _ _ _ hi h => by rw [step_cfg h]; exact hi) s hr
+
+
 theorem step_inv {s s' : St} {tok : Tok} {ev : List String} (hi : Inv s)
     (h : step s tok = some (s', ev)) : Inv s' := by
   unfold step at h
